@@ -57,6 +57,7 @@ type vqStmt struct {
 	Call      string // "" = raw
 	HasRange  bool
 	A, B      int64 // seconds: time >= A AND time < B
+	BIncl     bool  // the upper bound is written as time <= (B-1)s (the same set of whole-second timestamps)
 	HostEq    string
 	GroupTime int64 // seconds, 0 = none
 	GroupOff  int64 // seconds
@@ -79,7 +80,11 @@ func (s vqStmt) text(db, rp, m string) string {
 	fmt.Fprintf(&b, "SELECT %s FROM %s.%s.%s", expr, db, rp, m)
 	var conds []string
 	if s.HasRange {
-		conds = append(conds, fmt.Sprintf("time >= %ds AND time < %ds", s.A, s.B))
+		if s.BIncl {
+			conds = append(conds, fmt.Sprintf("time >= %ds AND time <= %ds", s.A, s.B-1))
+		} else {
+			conds = append(conds, fmt.Sprintf("time >= %ds AND time < %ds", s.A, s.B))
+		}
 	}
 	if s.HostEq != "" {
 		conds = append(conds, fmt.Sprintf("host = '%s'", s.HostEq))
@@ -548,6 +553,11 @@ func TestVerifC11QueryLayouts(t *testing.T) {
 			p := vqPoint{Host: rapid.SampledFrom(hosts).Draw(rt, "host"), Region: rapid.SampledFrom(regions).Draw(rt, "region"),
 				TS: rapid.Int64Range(0, span-1).Draw(rt, "ts"), F: float64(rapid.IntRange(-4000, 4000).Draw(rt, "f")) / 4,
 				I: rapid.Int64Range(-50, 50).Draw(rt, "i"), S: rapid.SampledFrom([]string{"", "a", "b b", "q\"q"}).Draw(rt, "s"), B: rapid.Bool().Draw(rt, "b")}
+			if rapid.IntRange(0, 5).Draw(rt, "alignTS") == 0 {
+				// a point stamped with the first instant of a shard group
+				u := rapid.SampledFrom([]int64{3600, 86400}).Draw(rt, "alignUnit")
+				p.TS -= p.TS % u
+			}
 			if uniqueTS {
 				for used[p.TS] {
 					p.TS = (p.TS + 1) % span
@@ -668,7 +678,7 @@ func TestVerifC11QueryLayouts(t *testing.T) {
 			if !skipRef && first != want.String() {
 				rt.Fatalf("%s %q: all layouts agree but differ from the reference evaluation\n--- cluster\n%s--- reference\n%s--- points %v", verifkit.Sig("result-differs-from-reference"), s.text(db, "<rp>", m), first, want.String(), all)
 			}
-			shape := fmt.Sprintf("call=%s field=%s range=%v host=%v gt=%v off=%v tags=%v star=%v fill=%s desc=%v lim=%v offs=%v", s.Call, s.Field, s.HasRange, s.HostEq != "", s.GroupTime, s.GroupOff != 0, s.GroupTags, s.Star, s.Fill, s.Desc, s.Limit > 0, s.Offset > 0)
+			shape := fmt.Sprintf("incl=%v call=%s field=%s range=%v host=%v gt=%v off=%v tags=%v star=%v fill=%s desc=%v lim=%v offs=%v", s.BIncl, s.Call, s.Field, s.HasRange, s.HostEq != "", s.GroupTime, s.GroupOff != 0, s.GroupTags, s.Star, s.Fill, s.Desc, s.Limit > 0, s.Offset > 0)
 			width := span
 			if s.HasRange {
 				width = s.B - s.A
@@ -709,6 +719,20 @@ func vqDrawStmt(rt *rapid.T, hosts []string, span int64, uniqueTS bool) vqStmt {
 		s.HasRange = true
 		s.A = rapid.Int64Range(-3600, span).Draw(rt, "a")
 		s.B = s.A + rapid.SampledFrom([]int64{1, 60, 3600, 3 * 3600, 86400, 3 * 86400, 11 * 86400}).Draw(rt, "width")
+		// bounds exactly on shard-group starts (hours, days; the weekly groups start on a day boundary too), and
+		// an inclusive upper bound that is the first instant of a group
+		if rapid.IntRange(0, 2).Draw(rt, "alignedBounds") == 0 {
+			u := rapid.SampledFrom([]int64{3600, 86400}).Draw(rt, "boundUnit")
+			s.A -= ((s.A % u) + u) % u
+			s.B -= ((s.B % u) + u) % u
+			if s.B <= s.A {
+				s.B = s.A + u
+			}
+		}
+		if rapid.IntRange(0, 2).Draw(rt, "inclusiveUpper") == 0 {
+			s.BIncl = true
+			s.B++ // time <= (the aligned instant)
+		}
 	}
 	if rapid.IntRange(0, 3).Draw(rt, "hostEq") == 0 {
 		s.HostEq = rapid.SampledFrom(hosts).Draw(rt, "hostv")
